@@ -10,6 +10,7 @@ mod c05;
 mod c06;
 mod c07;
 mod c08;
+mod c09;
 mod c10;
 mod c12;
 mod c13;
@@ -103,6 +104,7 @@ fn main() {
         "C06" => c06::run(&args),
         "C07" => c07::run(&args),
         "C08" => c08::run(&args),
+        "C09" => c09::run(&args),
         "C10" => c10::run(&args),
         "C12" => c12::run(&args),
         "C13" => c13::run(&args),
